@@ -152,7 +152,13 @@ class TextMessagingService(BytesInterface, LoggingTrait):
             availability_header
         )
         self.sequence_number: Optional[int] = sequence_number
-        self.encoding: Optional[TMSEncoding] = encoding
+        # UNDEFINED encoding is not sent (reads back as None), same as no encoding given
+        self.encoding: Optional[TMSEncoding] = (
+            None if encoding == TMSEncoding.UNDEFINED else encoding
+        )
+        if self.encoding is not None and self.sequence_number is None:
+            # encoding travels in the sequence number header, s/n is 0 when none was given
+            self.sequence_number = 0
         self.message: Optional[bytes] = message
 
     @staticmethod
